@@ -42,6 +42,7 @@ def target_strategy():
     tup0 = st.lists(elem, min_size=0, max_size=3).map(lambda e: ["tup", e])
     tup = st.one_of(tup0, st.lists(st.one_of(elem, tup0), min_size=1, max_size=2).map(lambda e: ["tup", e]))
     seq = st.one_of(
+        elem.map(lambda e: ["tupvar", e]),  # tuple[T, ...]
         elem.map(lambda e: ["listof", e]), elem.map(lambda e: ["seqof", e]), elem.map(lambda e: ["collof", e]),
         st.tuples(elem, elem).map(lambda p: ["mapof", p[0], p[1]]),
         st.tuples(elem, elem).map(lambda p: ["dictof", p[0], p[1]]))
